@@ -4,16 +4,21 @@ unless asked), runs the owning property's quick check against it and records whe
 import os, re, sys, json, subprocess, time
 VERIF = os.path.dirname(os.path.dirname(os.path.abspath(__file__)))
 REPO = os.environ.get("VERIF_REPO", "/repo")
-only = sys.argv[1:]
+only = [a for a in sys.argv[1:] if not a.startswith("--")]
+skip_done = "--resume" in sys.argv
 res = []
+if skip_done and os.path.exists(os.path.join(VERIF, "mutants", "results.json")):
+    res = json.load(open(os.path.join(VERIF, "mutants", "results.json")))
+done = {(r["property"], r["mutant"]) for r in res if r["status"] in ("killed", "survived")}
 for line in open(os.path.join(VERIF, "mutants", "list.txt")):
     line = line.rstrip("\n")
     if not line or line.startswith("#"): continue
-    prop, f, pat, rep, desc = line.split("|", 4)
+    prop, f, pat, rep, desc = [x.strip(" ") for x in line.split(" @@ ", 4)]
     if only and prop not in only: continue
+    if (prop, desc) in done: continue
     path = os.path.join(REPO, "src", f)
     src = open(path).read()
-    pat_ = pat.replace("\\n", "\n"); rep_ = rep.replace("\\n", "\n").replace("\\&", "&")
+    pat_ = pat.replace("\\n", "\n"); rep_ = rep.replace("\\n", "\n")
     new, n = re.subn(pat_, lambda m: rep_, src, count=1)
     if n == 0 or new == src:
         res.append({"property": prop, "mutant": desc, "status": "pattern-not-found"}); print("NOT-APPLIED", prop, desc, flush=True); continue
